@@ -45,7 +45,7 @@ type TOp struct {
 	Method  string
 	RO      bool
 	IDKind  string // own | zero | root  (ID a query sender / Add argument presents)
-	Outcome string // answer | other-id | other-port | other-t | error | ro | silent
+	Outcome string // answer | other-id | root-id | zero-id | other-port | other-t | error | ro | silent
 	Alt     int
 	AgeMin  int
 	K       int
@@ -139,7 +139,7 @@ func genTable(t *rapid.T, bias string) TableSc {
 	}
 	peer := func(label string) int { return uniformInt(t, np, label) }
 	outcome := func() string {
-		return pick(t, "op.outcome", "answer", "answer", "answer", "answer", "answer", "answer", "other-id", "other-port", "other-t", "error", "ro", "silent")
+		return pick(t, "op.outcome", "answer", "answer", "answer", "answer", "answer", "answer", "other-id", "other-port", "other-t", "error", "ro", "silent", "root-id", "zero-id")
 	}
 	probe := func() TOp {
 		op := TOp{Kind: "Probe", Method: rapid.SampledFrom([]string{"find_node", "find_node", "get_peers", "get"}).Draw(t, "op.method"),
@@ -187,7 +187,7 @@ func genTable(t *rapid.T, bias string) TableSc {
 			case r < 80:
 				op = TOp{Kind: "Age", AgeMin: rapid.SampledFrom(tableAges).Draw(t, "op.age")}
 			case r < 95:
-				op = TOp{Kind: "QP", K: rapid.IntRange(0, 63).Draw(t, "op.k"), Outcome: rapid.SampledFrom([]string{"silent", "silent", "silent", "answer", "error", "other-id"}).Draw(t, "op.qpo"), Alt: peer("op.alt")}
+				op = TOp{Kind: "QP", K: rapid.IntRange(0, 63).Draw(t, "op.k"), Outcome: pick(t, "op.qpo", "silent", "silent", "silent", "answer", "answer", "error", "other-id", "root-id", "zero-id"), Alt: peer("op.alt")}
 			default:
 				op = probe()
 			}
@@ -341,6 +341,10 @@ func (m *tableMachine) handle(i int) func(q SimQuery) []SimReply {
 			return []SimReply{{Data: mkResponse(t, stdReturn(id, contacts, nil))}}
 		case "other-id":
 			return []SimReply{{Data: mkResponse(t, stdReturn(m.peerID(op.Alt), contacts, nil))}}
+		case "root-id": // answers with the node's own ID
+			return []SimReply{{Data: mkResponse(t, stdReturn(m.root, contacts, nil))}}
+		case "zero-id":
+			return []SimReply{{Data: mkResponse(t, stdReturn([20]byte{}, contacts, nil))}}
 		case "other-port":
 			from := *addr
 			from.Port = 1 + addr.Port%65535
